@@ -3,164 +3,325 @@ package main
 import (
 	"go/ast"
 	"go/token"
+	"strconv"
 	"strings"
 )
 
-// C15: from chains/btc/listener/util.go
-//   - the float → satoshi conversion: is it int64(math.Round(<value> * 1e8)), and does every use of vout.Value go through it
-//   - the "not a deposit" condition and the two script-type constants
-// from chains/btc/listener/deposit-handler.go
-//   - base and exponent of the scaling multiplier, the ParseUint base/bit-size, the separator
+// C15: facts from chains/btc/listener/util.go and deposit-handler.go, located by SHAPE (names of locals, receivers and
+// unexported helpers are derived from the statements):
+//   conversion    every use of the range variable's `.Value` in DecodeDepositEvent, classified: int64(math.Round(v*1e8))
+//                 (directly or through a same-file helper, 1e8 a literal or a package constant) / some other recognisable
+//                 float→int conversion (truncation, +0.5, Floor …) / not understood
+//   notDeposit    the condition under which DecodeDepositEvent reports "not a deposit", over (bridge paid, fee sum, threshold)
+//   scriptTypes   the strings the Taproot test and the OP_RETURN test compare `ScriptPubKey.Type` with
+//   scale         base^exponent of the big.Int multiplier applied to the amount in HandleDeposit
+//   payload       (field index, separator, base, bit size) of the destination-domain parse
 func init() {
 	extractors["C15"] = func(o *Out) {
 		f := o.ParseFile("chains/btc/listener/util.go")
-		convSrc, convRound := "", false
-		convName := ""
-		// a helper whose single statement returns int64(math.Round(x * 1e8))
+		consts := cxConsts(f)
+		dec := FindFunc(f, "", "DecodeDepositEvent")
+		resP, feeP := cxParam(dec, 1), cxParam(dec, 2)
+		evtP := cxParam(dec, 0)
+
+		// the loop over <evt>.Vout and its variable
+		var loopBody *ast.BlockStmt
+		vv := ""
+		if dec != nil {
+			cxLoops(dec.Body, func(body *ast.BlockStmt, loop ast.Stmt) {
+				if rs, ok := loop.(*ast.RangeStmt); ok && Src(rs.X) == evtP+".Vout" && rs.Value != nil && Src(rs.Value) != "_" {
+					loopBody, vv = body, Src(rs.Value)
+					return
+				}
+				// indexed form: the body starts with `v := <evt>.Vout[i]`
+				if len(body.List) > 0 {
+					if a, ok := body.List[0].(*ast.AssignStmt); ok && a.Tok == token.DEFINE && len(a.Lhs) == 1 && len(a.Rhs) == 1 {
+						if ix, ok := a.Rhs[0].(*ast.IndexExpr); ok && Src(ix.X) == evtP+".Vout" {
+							loopBody, vv = body, Src(a.Lhs[0])
+						}
+					}
+				}
+			})
+		}
+
+		// ---- conversion
+		classify := func(e ast.Expr, arg string) string { // "round" | "other" | ""
+			c, ok := e.(*ast.CallExpr)
+			if !ok || len(c.Args) != 1 || Src(c.Fun) != "int64" {
+				return ""
+			}
+			is1e8 := func(x ast.Expr) bool {
+				s := Src(x)
+				if v, ok := consts[s]; ok {
+					s = v
+				}
+				fl, err := strconv.ParseFloat(s, 64)
+				return err == nil && fl == 1e8
+			}
+			prod := func(x ast.Expr) bool {
+				if p, ok := x.(*ast.ParenExpr); ok {
+					x = p.X
+				}
+				b, ok := x.(*ast.BinaryExpr)
+				return ok && b.Op == token.MUL && ((Src(b.X) == arg && is1e8(b.Y)) || (Src(b.Y) == arg && is1e8(b.X)))
+			}
+			inner := c.Args[0]
+			if r, ok := inner.(*ast.CallExpr); ok && Src(r.Fun) == "math.Round" && len(r.Args) == 1 && prod(r.Args[0]) {
+				return "round"
+			}
+			if strings.Contains(Src(inner), arg) {
+				return "other" // a float→int64 conversion of the value that is not round-of-product: truncation, +0.5, Floor, …
+			}
+			return ""
+		}
+		helpers := map[string]string{} // same-file func(float64) int64 with a single return → its class
 		if f != nil {
 			for _, d := range f.Decls {
 				fd, ok := d.(*ast.FuncDecl)
-				if !ok || fd.Recv != nil || fd.Body == nil || len(fd.Body.List) != 1 {
+				if !ok || fd.Recv != nil || fd.Body == nil || len(fd.Body.List) != 1 || cxTypes(fd.Type.Params) != "(float64)" || cxTypes(fd.Type.Results) != "(int64)" {
 					continue
 				}
-				rs, ok := fd.Body.List[0].(*ast.ReturnStmt)
-				if !ok || len(rs.Results) != 1 || !strings.Contains(Src(rs.Results[0]), "1e8") {
-					continue
+				if rs, ok := fd.Body.List[0].(*ast.ReturnStmt); ok && len(rs.Results) == 1 {
+					helpers[fd.Name.Name] = classify(rs.Results[0], cxParam(fd, 0))
 				}
-				convName, convSrc = fd.Name.Name, Src(rs.Results[0])
-				convRound = c15IsRound(rs.Results[0])
 			}
 		}
-		uses, rawUses, inlineRound := 0, 0, 0
-		notDep := ""
-		if fd := FindFunc(f, "", "DecodeDepositEvent"); fd != nil {
-			Walk(fd.Body, func(n ast.Node) bool {
-				switch x := n.(type) {
-				case *ast.CallExpr:
-					if convName != "" && Src(x.Fun) == convName && len(x.Args) == 1 && Src(x.Args[0]) == "vout.Value" {
-						uses++
-					}
-					if Src(x.Fun) == "int64" && len(x.Args) == 1 && strings.Contains(Src(x.Args[0]), "vout.Value") {
-						if c15IsRound(x) {
-							inlineRound++
-						}
-					}
-				case *ast.SelectorExpr:
-					if Src(x) == "vout.Value" {
-						rawUses++
-					}
-				case *ast.IfStmt:
-					if len(x.Body.List) == 1 {
-						if rs, ok := x.Body.List[0].(*ast.ReturnStmt); ok && len(rs.Results) == 3 && Src(rs.Results[1]) == "false" {
-							notDep = Src(x.Cond)
-						}
-					}
-				}
-				return true
-			})
-		}
-		consts := map[string]string{}
-		if f != nil {
-			for _, d := range f.Decls {
-				if gd, ok := d.(*ast.GenDecl); ok && gd.Tok == token.CONST {
-					for _, sp := range gd.Specs {
-						if vs, ok := sp.(*ast.ValueSpec); ok {
-							for i, n := range vs.Names {
-								if i < len(vs.Values) {
-									consts[n.Name] = strings.Trim(Src(vs.Values[i]), "\"")
+		uses, rounded, other, unknown := 0, 0, 0, 0
+		if loopBody != nil {
+			// every `<vv>.Value` and the call that directly consumes it
+			var visit func(n ast.Node, parentCall *ast.CallExpr)
+			visit = func(n ast.Node, parentCall *ast.CallExpr) {
+				ast.Inspect(n, func(m ast.Node) bool {
+					if c, ok := m.(*ast.CallExpr); ok {
+						cls := ""
+						if id, ok := c.Fun.(*ast.Ident); ok && len(c.Args) == 1 && Src(c.Args[0]) == vv+".Value" {
+							if k, ok := helpers[id.Name]; ok {
+								cls = k
+								if cls == "" {
+									cls = "?"
 								}
 							}
 						}
+						if cls == "" {
+							cls = classify(c, vv+".Value")
+						}
+						if cls != "" {
+							uses++
+							switch cls {
+							case "round":
+								rounded++
+							case "other":
+								other++
+							default:
+								unknown++
+							}
+							return false
+						}
 					}
+					if s, ok := m.(*ast.SelectorExpr); ok && Src(s) == vv+".Value" {
+						uses++
+						unknown++
+					}
+					return true
+				})
+			}
+			visit(loopBody, nil)
+		}
+		o.Facts["value_uses"] = uses
+		o.Facts["value_uses_rounded"] = rounded
+		convOK := loopBody != nil && uses > 0 && unknown == 0
+		if !convOK {
+			o.Unavailable("conversion", "the uses of the output value in DecodeDepositEvent's loop were not all located as a float→int64 conversion the translator understands")
+		}
+		o.Lean.WriteString("/-- (uses of the output's float value, how many of them are `int64(math.Round(v * 1e8))`, how many another conversion) -/\n")
+		o.Lean.WriteString("def conversion : Option (Nat × Nat × Nat) := " + LeanOpt(convOK, c15Itoa(uses)+", "+c15Itoa(rounded)+", "+c15Itoa(other)) + "\n\n")
+
+		// ---- names derived from the loop: bridge flag, fee accumulator, script types
+		flag, feeAcc, tapType, nullType := "", "", "", ""
+		typeOf := func(cond ast.Expr) string { // the thing `<vv>.ScriptPubKey.Type` is compared with (==), resolved
+			b, ok := cond.(*ast.BinaryExpr)
+			if !ok || b.Op != token.EQL {
+				return ""
+			}
+			other := ast.Expr(nil)
+			if Src(b.X) == vv+".ScriptPubKey.Type" {
+				other = b.Y
+			} else if Src(b.Y) == vv+".ScriptPubKey.Type" {
+				other = b.X
+			}
+			if other == nil {
+				return ""
+			}
+			s := Src(other)
+			if v, ok := consts[s]; ok {
+				return v
+			}
+			if bl, ok := other.(*ast.BasicLit); ok && bl.Kind == token.STRING {
+				return strings.Trim(bl.Value, "\"")
+			}
+			return ""
+		}
+		if loopBody != nil {
+			for _, st := range loopBody.List {
+				is, ok := st.(*ast.IfStmt)
+				if !ok {
+					continue
+				}
+				if t := typeOf(is.Cond); t != "" && strings.Contains(Src(is.Body), "DecodeString") {
+					nullType = t
+				}
+				if cxMentions(is.Cond, resP) && strings.Contains(Src(is.Cond), ".Address") {
+					Walk(is.Body, func(m ast.Node) bool {
+						if a, ok := m.(*ast.AssignStmt); ok && len(a.Lhs) == 1 && len(a.Rhs) == 1 && Src(a.Rhs[0]) == "true" {
+							flag = Src(a.Lhs[0])
+						}
+						if in, ok := m.(*ast.IfStmt); ok {
+							if t := typeOf(in.Cond); t != "" && strings.Contains(Src(in.Body), ".Add(") {
+								tapType = t
+							}
+						}
+						return true
+					})
+				}
+				if cxMentions(is.Cond, feeP) {
+					Walk(is.Body, func(m ast.Node) bool {
+						if c, ok := m.(*ast.CallExpr); ok {
+							if s, ok := c.Fun.(*ast.SelectorExpr); ok && s.Sel.Name == "Add" && len(c.Args) == 2 && Src(c.Args[0]) == Src(s.X) {
+								feeAcc = Src(s.X)
+							}
+						}
+						return true
+					})
 				}
 			}
 		}
-		o.Facts["conversion_go"] = convSrc
-		o.Facts["conversion_helper"] = convName
-		o.Facts["not_deposit_cond_go"] = notDep
-		o.Lean.WriteString("/-- the conversion is `int64(math.Round(<float> * 1e8))` (helper or inline) -/\n")
-		o.Lean.WriteString("def convRoundsProduct : Bool := " + c15LeanBool((convRound && uses > 0) || inlineRound > 0) + "\n")
-		o.Lean.WriteString("/-- uses of `vout.Value` in DecodeDepositEvent, and how many of them go through the rounding conversion -/\n")
-		o.Lean.WriteString("def valueUses : Nat := " + c15Itoa(rawUses) + "\n")
-		o.Lean.WriteString("def roundedUses : Nat := " + c15Itoa(uses+inlineRound) + "\n")
-		o.Lean.WriteString("def notDepositCond : String := " + LeanStr(notDep) + "\n")
-		o.Lean.WriteString("def taprootType : String := " + LeanStr(consts["WitnessV1Taproot"]) + "\n")
-		o.Lean.WriteString("def nulldataType : String := " + LeanStr(consts["OP_RETURN"]) + "\n\n")
+		typesOK := tapType != "" && nullType != ""
+		if !typesOK {
+			o.Unavailable("scriptTypes", "the Taproot test inside the bridge-address branch or the OP_RETURN test was not located")
+		}
+		o.Lean.WriteString("/-- (script type credited as Taproot, script type read as OP_RETURN) -/\n")
+		o.Lean.WriteString("def scriptTypes : Option (String × String) := " + LeanOpt(typesOK, LeanStr(tapType)+", "+LeanStr(nullType)) + "\n\n")
 
+		// ---- "not a deposit": disjunction of the conditions of the top-level `if … { return _, false, nil }` after the loop
+		conds := []string{}
+		ndOK := dec != nil && flag != "" && feeAcc != ""
+		if ndOK {
+			cx := &CX{Names: map[string]string{flag: "bridge", feeAcc: "fee", resP + ".FeeAmount": "thr"}, Consts: consts}
+			seenLoop := false
+			for _, st := range dec.Body.List {
+				switch st.(type) {
+				case *ast.RangeStmt, *ast.ForStmt:
+					seenLoop = true
+				}
+				is, ok := st.(*ast.IfStmt)
+				if !ok || !seenLoop || is.Else != nil || len(is.Body.List) != 1 {
+					continue
+				}
+				rs, ok := is.Body.List[0].(*ast.ReturnStmt)
+				if !ok || len(rs.Results) != 3 || Src(rs.Results[1]) != "false" {
+					continue
+				}
+				t, ok := cx.Bool(is.Cond)
+				if !ok {
+					ndOK = false
+				}
+				conds = append(conds, t)
+			}
+			if len(conds) == 0 {
+				ndOK = false
+			}
+		}
+		if !ndOK {
+			o.Unavailable("notDeposit", "the early return(s) reporting `not a deposit` were not located in a shape the translator understands")
+		}
+		o.Facts["not_deposit_conds"] = conds
+		o.Lean.WriteString("/-- when DecodeDepositEvent answers `not a deposit` (bridge = bridge address paid; fee, thr as integers) -/\n")
+		o.Lean.WriteString("def notDeposit : Option (Bool → Int → Int → Bool) := " + LeanOpt(ndOK, "fun bridge fee thr => "+strings.Join(conds, " || ")) + "\n\n")
+
+		// ---- HandleDeposit
 		h := o.ParseFile("chains/btc/listener/deposit-handler.go")
-		base, exp, sep := "0", "0", ""
-		parse := []string{}
-		if fd := FindFunc(h, "BtcDepositHandler", "HandleDeposit"); fd != nil {
-			Walk(fd.Body, func(n ast.Node) bool {
+		hconsts := cxConsts(h)
+		hd := FindFunc(h, "BtcDepositHandler", "HandleDeposit")
+		amountP, dataP := cxParam(hd, 3), cxParam(hd, 4)
+		lit := func(e ast.Expr) (string, bool) { // big.NewInt(<int literal or constant>)
+			c, ok := e.(*ast.CallExpr)
+			if !ok || Src(c.Fun) != "big.NewInt" || len(c.Args) != 1 {
+				return "", false
+			}
+			s := Src(c.Args[0])
+			if v, ok := hconsts[s]; ok {
+				s = v
+			}
+			_, err := strconv.ParseUint(s, 10, 64)
+			return s, err == nil
+		}
+		scaleOK, base, exp := false, "0", "0"
+		payOK, idx, sep, pbase, pbits := false, "0", "", "0", "0"
+		if hd != nil {
+			mulBy, expOf := "", map[string][2]string{}
+			splitVar := ""
+			Walk(hd.Body, func(n ast.Node) bool {
+				if a, ok := n.(*ast.AssignStmt); ok && len(a.Lhs) >= 1 && len(a.Rhs) == 1 {
+					if c, ok := a.Rhs[0].(*ast.CallExpr); ok && Src(c.Fun) == "strings.Split" && len(c.Args) == 2 && Src(c.Args[0]) == dataP {
+						splitVar = Src(a.Lhs[0])
+						s := Src(c.Args[1])
+						if v, ok := hconsts[s]; ok {
+							s = "\"" + v + "\""
+						}
+						sep = strings.Trim(s, "\"")
+					}
+				}
 				c, ok := n.(*ast.CallExpr)
 				if !ok {
 					return true
 				}
-				switch Src(c.Fun) {
-				case "multiplier.Exp":
-					if len(c.Args) == 3 {
-						base, exp = c15BigLit(c.Args[0]), c15BigLit(c.Args[1])
+				s, ok := c.Fun.(*ast.SelectorExpr)
+				if !ok {
+					return true
+				}
+				switch {
+				case s.Sel.Name == "Exp" && len(c.Args) == 3 && Src(c.Args[2]) == "nil":
+					b, ok1 := lit(c.Args[0])
+					e, ok2 := lit(c.Args[1])
+					if ok1 && ok2 {
+						expOf[Src(s.X)] = [2]string{b, e}
 					}
-				case "strconv.ParseUint":
-					if len(c.Args) == 3 {
-						parse = []string{Src(c.Args[0]), Src(c.Args[1]), Src(c.Args[2])}
-					}
-				case "strings.Split":
-					if len(c.Args) == 2 {
-						sep = strings.Trim(Src(c.Args[1]), "\"")
+				case s.Sel.Name == "Mul" && len(c.Args) == 2 && Src(s.X) == amountP && Src(c.Args[0]) == amountP:
+					mulBy = Src(c.Args[1])
+				case Src(c.Fun) == "strconv.ParseUint" && len(c.Args) == 3:
+					if ix, ok := c.Args[0].(*ast.IndexExpr); ok && splitVar != "" && Src(ix.X) == splitVar {
+						num := func(e ast.Expr) (int, bool) { // literal, or a package constant bound to one
+							if v, ok := hconsts[Src(e)]; ok {
+								n, err := strconv.Atoi(v)
+								return n, err == nil
+							}
+							return cxIntLit(e)
+						}
+						i, ok1 := num(ix.Index)
+						b, ok2 := num(c.Args[1])
+						w, ok3 := num(c.Args[2])
+						if ok1 && ok2 && ok3 {
+							payOK, idx, pbase, pbits = true, c15Itoa(i), c15Itoa(b), c15Itoa(w)
+						}
 					}
 				}
 				return true
 			})
+			if be, ok := expOf[mulBy]; ok {
+				scaleOK, base, exp = true, be[0], be[1]
+			}
 		}
-		o.Facts["scale"] = base + "^" + exp
-		o.Facts["parse_uint"] = parse
-		o.Lean.WriteString("/-- `multiplier.Exp(big.NewInt(base), big.NewInt(exp), nil)` -/\n")
-		o.Lean.WriteString("def scaleBase : Nat := " + base + "\ndef scaleExp : Nat := " + exp + "\n")
-		o.Lean.WriteString("def parseUintArgs : List String := " + LeanStrList(parse) + "\n")
-		o.Lean.WriteString("def separator : String := " + LeanStr(sep) + "\n")
-	}
-}
-
-func c15LeanBool(b bool) string {
-	if b {
-		return "true"
-	}
-	return "false"
-}
-
-func c15Itoa(i int) string {
-	if i == 0 {
-		return "0"
-	}
-	s := ""
-	for i > 0 {
-		s = string(rune('0'+i%10)) + s
-		i /= 10
-	}
-	return s
-}
-
-// int64(math.Round(<x> * 1e8))
-func c15IsRound(e ast.Expr) bool {
-	c, ok := e.(*ast.CallExpr)
-	if !ok || Src(c.Fun) != "int64" || len(c.Args) != 1 {
-		return false
-	}
-	r, ok := c.Args[0].(*ast.CallExpr)
-	if !ok || Src(r.Fun) != "math.Round" || len(r.Args) != 1 {
-		return false
-	}
-	b, ok := r.Args[0].(*ast.BinaryExpr)
-	return ok && b.Op == token.MUL && (Src(b.Y) == "1e8" || Src(b.X) == "1e8")
-}
-
-// big.NewInt(<int literal>)
-func c15BigLit(e ast.Expr) string {
-	if c, ok := e.(*ast.CallExpr); ok && Src(c.Fun) == "big.NewInt" && len(c.Args) == 1 {
-		if bl, ok := c.Args[0].(*ast.BasicLit); ok && bl.Kind == token.INT {
-			return bl.Value
+		if !scaleOK {
+			o.Unavailable("scale", "`amount.Mul(amount, X)` with `X.Exp(big.NewInt(b), big.NewInt(e), nil)` was not located in HandleDeposit")
 		}
+		if !payOK {
+			o.Unavailable("payload", "`strconv.ParseUint(<strings.Split(data, sep)>[i], base, bits)` was not located in HandleDeposit")
+		}
+		o.Lean.WriteString("/-- the amount is multiplied by base ^ exponent -/\n")
+		o.Lean.WriteString("def scale : Option (Nat × Nat) := " + LeanOpt(scaleOK, base+", "+exp) + "\n\n")
+		o.Lean.WriteString("/-- destination = ParseUint(field `index` of data split at `separator`, base, bits) -/\n")
+		o.Lean.WriteString("def payload : Option (Nat × String × Nat × Nat) := " + LeanOpt(payOK, idx+", "+LeanStr(sep)+", "+pbase+", "+pbits) + "\n")
 	}
-	return "0"
 }
+
+func c15Itoa(i int) string { return strconv.Itoa(i) }
